@@ -240,7 +240,17 @@ func c16Explore(c *Ctx, sc c16Scenario, bound int, shardK, shardN int) *c16Stats
 			if s, ok := o.res.Panic.(string); ok && strings.Contains(s, "nondeterminism not owned") {
 				panic(s)
 			}
-			c16Violate(c, sc, prefix, "panic", fmt.Sprintf("a reproduction thread panicked: %v", o.res.Panic), o)
+			if _, hz := o.res.Panic.(horizonAbort); hz {
+				// the draw horizon of the harness was crossed (a rejection loop the answer policy cannot leave):
+				// a limit of the exploration, not a behaviour of the library
+				c.MarkCapped("a schedule of scenario '" + sc.Name + "' crossed the draw horizon of the harness and was abandoned")
+				break
+			}
+			st := o.res.Stack
+			if i := strings.Index(st, "goNEAT"); i > 0 && len(st) > i+700 {
+				st = st[i : i+700]
+			}
+			c16Violate(c, sc, prefix, "panic", fmt.Sprintf("a reproduction thread panicked: %v; %s", o.res.Panic, st), o)
 		case o.res.Deadlock:
 			st.deadlocks++
 			c16Violate(c, sc, prefix, "deadlock", "no thread is enabled although some have not finished", o)
@@ -351,7 +361,7 @@ func replayC16(c *Ctx, rp *Replay) (bool, string) {
 	o := c16Execute(sc, rp.Schedule, true)
 	switch {
 	case o.res.Panic != nil:
-		return true, fmt.Sprintf("panic: %v", o.res.Panic)
+		return true, fmt.Sprintf("panic: %T %v %s", o.res.Panic, o.res.Panic, o.res.Stack)
 	case o.res.Deadlock:
 		return true, "deadlock"
 	case len(o.res.Races) > 0:
